@@ -1,6 +1,6 @@
 (* C13 - Tags on the wire are exactly the type's tags.
    Only statements closed by [exact]; proofs live in Proofs/. *)
-From PV Require Import Base.Bytes Model.Tag Proofs.TagOctets Proofs.TagAlgebra.
+From PV Require Import Base.Bytes Model.Tag Model.Types Model.Enc Proofs.TagOctets Proofs.TagAlgebra Proofs.Spine.
 Local Open Scope N_scope.
 
 (* identifier octets round trip for every class, form and number (no bound on the number) *)
@@ -39,6 +39,15 @@ Theorem C13_explicit : forall ts t,
   end.
 Proof. exact tag_explicitly_spec. Qed.
 Print Assumptions C13_explicit.
+
+(* The encoder's framing, whatever the mode: reading the headers of the result from the outside in
+   gives the type's tags from outermost to innermost, the constructed bit being that of the tag
+   (set for explicit wrappers) or-ed with "the contents are constructed" *)
+Theorem C13_spine : forall ts content is_cons o si b,
+  frame ts content is_cons o si = Ok b -> b <> [] ->
+  spine (length ts) b = map (wire_tag is_cons) (rev ts).
+Proof. exact frame_spine. Qed.
+Print Assumptions C13_spine.
 
 Example C13_nonvacuous :
   enc_tag (mkTag Priv false 16384) true = [255; 129; 128; 0]
